@@ -194,7 +194,7 @@ mod verif_kani {
         i < s.len() && s[i] == b'['
     }
 
-    //@harness props=C18,C04,C12 kind=bounded tier=quick fns=is_single_line_comment bound="comment text: `--` followed by <= 5 bytes over {[,=,a,-}"
+    //@harness props=C18,C04,C03,C12 kind=bounded tier=quick fns=is_single_line_comment bound="comment text: `--` followed by <= 5 bytes over {[,=,a,-}"
     //@ desc="is_single_line_comment(s) == not (s matches ^--\\[=*\\[) : a comment is treated as a line comment (after which the writer must break the line) exactly when it is not a long comment"
     #[kani::proof]
     #[kani::unwind(9)]
@@ -208,7 +208,7 @@ mod verif_kani {
         kani::cover!(!r);
     }
 
-    //@harness props=C18,C04,C12 kind=bounded tier=thorough fns=is_single_line_comment bound="comment text: `--` followed by <= 7 bytes over {[,=,a,-}" budget=900
+    //@harness props=C18,C04,C03,C12 kind=bounded tier=thorough fns=is_single_line_comment bound="comment text: `--` followed by <= 7 bytes over {[,=,a,-}" budget=900
     //@ desc="is_single_line_comment(s) == not (s matches ^--\\[=*\\[)"
     #[kani::proof]
     #[kani::unwind(11)]
